@@ -77,6 +77,14 @@ class Boom(Exception):
     pass
 
 
+class CaseHang(BaseException):
+    """raised by the per-case watchdog (SIGALRM) when a history blocks, e.g. on the cache's non-reentrant lock"""
+
+
+BLOCKED = [False]          # a history blocked in this run: stop exploring
+CASE_WATCHDOG_S = 30      # wall clock; a history takes milliseconds - only a blocked interpreter ever gets here
+
+
 class BoomBase(BaseException):
     """an on_timeout / handler may also leave with something that is not an `Exception`"""
 
@@ -540,6 +548,8 @@ class Run:
                     self.stats["delay:class-default"] = self.stats.get("delay:class-default", 0) + 1
                 if self.deadline[k] == t:
                     self.stats["delay:zero-override"] = self.stats.get("delay:zero-override", 0) + 1
+                    if self.case.get("service"):
+                        self.stats["service_loop:zero-delay-add"] = self.stats.get("service_loop:zero-delay-add", 0) + 1
                 if self.in_fire == k:
                     self.stats["self_readd:added"] = self.stats.get("self_readd:added", 0) + 1
                 elif self.in_fire is not None:
@@ -869,11 +879,25 @@ class Run:
                 return
             self.loop_errors.append(f"{context.get('message')}: {type(e).__name__ if e else ''} {e}")
         loop.set_exception_handler(handler)
+        import signal
+
+        def on_alarm(_sig, _frm):
+            raise CaseHang
+        old_handler = signal.signal(signal.SIGALRM, on_alarm)
+        signal.setitimer(signal.ITIMER_REAL, CASE_WATCHDOG_S)
         try:
             loop.run_until_complete(self._main(RequestCache))
+        except CaseHang:
+            BLOCKED[0] = True
+            self.fail("RequestCache:history-blocks",
+                      f"the history made no progress for {CASE_WATCHDOG_S} s of wall clock at virtual {self.now()} ms (a "
+                      f"synchronous call blocked, e.g. re-entering the cache's non-reentrant lock): the requests of "
+                      f"this history are never resolved")
         except Exception as e:  # the history could not be completed on this implementation
             self.loop_errors.append(f"history aborted: {type(e).__name__}: {e}")
         finally:
+            signal.setitimer(signal.ITIMER_REAL, 0)
+            signal.signal(signal.SIGALRM, old_handler)
             for fl in self.futs.values():
                 for f, _, _ in fl:
                     if f.done() and not f.cancelled():
@@ -883,7 +907,28 @@ class Run:
             loop.close()
         return self
 
+    async def _start_service(self):
+        """prepare the running loop the way the production service does: a real ipv8_service.IPv8 instance (no keys, no
+        overlays, in-memory endpoint) is started on it, so whatever IPv8.start() configures on the loop (task factory,
+        periodic tasks, …) is in effect while the history runs"""
+        from ipv8.configuration import ConfigBuilder
+        from ipv8.test.mocking.endpoint import AutoMockEndpoint
+        from ipv8_service import IPv8
+
+        class ServiceEndpoint(AutoMockEndpoint):
+            async def open(self):
+                self._open = True
+                return True
+        config = ConfigBuilder().clear_keys().clear_overlays().finalize()
+        config["logger"] = {"level": "CRITICAL"}
+        self.service = IPv8(config, endpoint_override=ServiceEndpoint())
+        await self.service.start()
+        logging.disable(logging.CRITICAL)      # the service configures logging: keep the run quiet
+
     async def _main(self, RequestCache):  # noqa: N803
+        self.service = None
+        if self.case.get("service"):
+            await self._start_service()
         self.rc = RequestCache()
         self.t0 = self.loop.time()
         end = self.case["end"]
@@ -899,6 +944,8 @@ class Run:
         self.pre()
         for tk in self.sd_tasks:
             await tk
+        if self.service is not None:
+            await self.service.stop()
         for tk, delayed, phase in self.atask_obs:
             end = "cancelled" if tk.cancelled() else ("finished" if tk.done() else "pending")
             self.log.append((self.now(), f"atask {1 if delayed else 0} {phase}"
@@ -1263,7 +1310,7 @@ def run_case(ctx: Ctx, case: dict, lines_out: list | None):
     # RULE: a request was registered and resolved by the scripted history itself (claim, timeout, scripted
     # clear/shutdown) — the harness's own epilogue shutdown does not count
     nontrivial = st["added"] > 0 and (st["claimed"] + st["timeout"] + st["dropped"]) > 0
-    key = repr((case["specs"], case["script"], case["end"]))
+    key = repr((case["specs"], case["script"], case["end"], case.get("service", False)))
     ctx.case(key, nontrivial)
     ctx.count("family:" + case["family"])
     for m in case.get("meta", []):
@@ -1331,6 +1378,22 @@ def family_cases(ctx: Ctx):
     n_random = ctx.scale(3500, 20000)
     for i in range(n_random):
         yield gen_random(rng, rng.choice([1, 2, 2, 3, 4, 4, 5, 6]))
+    # the same generators under the event loop as the production service prepares it (ipv8_service.IPv8.start())
+    for i in range(ctx.scale(400, 3000)):
+        case = gen_random(rng, rng.choice([1, 2, 3, 4]))
+        case["service"] = True
+        case["family"] = "random+service-loop"
+        yield case
+    for a in lanes_space(1, True):
+        case = lanes_case(*a)
+        case["service"] = True
+        case["family"] = "lanes+service-loop"
+        yield case
+    for seq, atd in seq_space(2):
+        case = seq_case([SEQ_ALPHABET[i] for i in seq], atd)
+        case["service"] = True
+        case["family"] = "sequences+service-loop"
+        yield case
     for i in range(ctx.scale(150, 1000)):
         yield gen_population(rng)
     for i in range(ctx.scale(150, 1000)):
@@ -1395,6 +1458,9 @@ def run(ctx: Ctx):
     sampled = 0
     for case in family_cases(ctx):
         r = run_case(ctx, case, batch)
+        if any(sig == "RequestCache:history-blocks" for sig, _ in r.failures):
+            ctx.count("stopped_after_blocked_history")
+            break                 # the verdict is settled; every further blocked history would cost the watchdog time
         if sampled < 3 and len(r.log) > 6:
             sampled += 1
             ctx.sample({"family": case["family"], "script": case["script"][:6],
@@ -1439,7 +1505,8 @@ REQUIRED_CLASSES = [
     "obs:handler_ops", "obs:handler_raised",
     "obs:api:pop:str", "obs:api:pop:cls", "obs:api:get:cls", "obs:api:ret:str", "obs:api:ret:wd", "obs:api:ret:2p",
     "obs:api:ret:wd2", "obs:passthrough_exit_by_exception", "obs:late_add_shutdown", "obs:tm_shutdown",
-    "obs:op_while_shutdown_awaits", "family:random", "family:population", "family:long", "family:lanes",
+    "obs:op_while_shutdown_awaits", "family:random+service-loop", "family:lanes+service-loop",
+    "family:sequences+service-loop", "obs:service_loop:zero-delay-add", "family:random", "family:population", "family:long", "family:lanes",
     "family:sequences",
 ]
 
@@ -1464,16 +1531,18 @@ def search(ctx: Ctx, reason: str):
     rng = ctx.rng
     for a in lanes_space(1, True):
         run_case(ctx, lanes_case(*a), None)
+        if BLOCKED[0]:
+            return
     space2 = list(lanes_space(2, True))
     for _ in range(6000):
         run_case(ctx, lanes_case(*rng.choice(space2)), None)
-        if len(ctx.failures) > 20:
+        if len(ctx.failures) > 20 or BLOCKED[0]:
             return
     for seq, atd in seq_space(3):
         run_case(ctx, seq_case([SEQ_ALPHABET[i] for i in seq], atd), None)
     for _ in range(4000):
         run_case(ctx, gen_random(rng, rng.choice([2, 3, 4, 5, 6])), None)
-        if len(ctx.failures) > 20:
+        if len(ctx.failures) > 20 or BLOCKED[0]:
             return
     for _ in range(200):
         run_case(ctx, gen_population(rng), None)
